@@ -1,10 +1,28 @@
 #!/bin/bash
-# Run once after a fresh restore, offline: builds the harness and warms the build cache.
+# Run once after a fresh restore, offline: builds the harness and every binary the
+# checks use (each check rebuilds what it needs anyway; this only warms the Go
+# build cache so that the first check does not pay for it).
 set -e
 cd /verif
 export GOFLAGS=-mod=mod GOPROXY=off
 unset GOTOOLCHAIN GOSUMDB
 mkdir -p bin evidence/replay
 cp -f /repo/go.sum harness/go.sum
-(cd harness && go build -tags verif -o /verif/bin/vcheck ./cmd/vcheck)
+cd harness
+go build -tags verif -o /verif/bin/vcheck ./cmd/vcheck
+go build -tags verif -o /verif/bin/vlint ./cmd/vlint
+go build -tags verif -o /verif/bin/staticcheck honnef.co/go/tools/cmd/staticcheck
+go build -tags verif -o /verif/bin/structlayout honnef.co/go/tools/cmd/structlayout
+go build -tags verif -o /verif/bin/structlayout-optimize honnef.co/go/tools/cmd/structlayout-optimize
+[ -d cmd/c05child ] && go build -tags verif -o /verif/bin/c05child ./cmd/c05child
+go build -tags verif -race -o /verif/bin/vcheck-race ./cmd/vcheck
+go build -tags verif -race -o /verif/bin/staticcheck-race honnef.co/go/tools/cmd/staticcheck
+# warm export data of the std packages the workspaces import, for the host and for GOOS=windows (C04 switches GOOS)
+d=$(mktemp -d /var/tmp/verif-setup.XXXXXX)
+mkdir -p "$d/p" && printf 'module example.com/warm\n\ngo 1.22\n' > "$d/go.mod"
+printf 'package p\n\nimport (\n\t"errors"\n\t"fmt"\n)\n\nfunc F() string { return fmt.Sprint(errors.New("x")) }\n' > "$d/p/p.go"
+printf 'package p\n\nimport "testing"\n\nfunc TestF(t *testing.T) { _ = F() }\n' > "$d/p/p_test.go"
+(cd "$d" && STATICCHECK_CACHE="$d/cache" /verif/bin/staticcheck ./... >/dev/null 2>&1 || true)
+(cd "$d" && GOOS=windows STATICCHECK_CACHE="$d/cache" /verif/bin/staticcheck ./... >/dev/null 2>&1 || true)
+rm -rf "$d"
 echo setup ok
